@@ -253,7 +253,7 @@ def rewrite_body(S, b0, b1, opts, log):
                 continue
             if base == "bail" and name in ("bail", "anyhow::bail"):
                 ed.add(toks[first].start, toks[c + 1].end if semi else end,
-                       "return Err(anyhow_error());", "R8", f"{S.rel}:{ln} bail!")
+                       "return Err(anyhow_error());" if semi else "return Err(anyhow_error())", "R8", f"{S.rel}:{ln} bail!")
                 consumed_until = c + 1 if semi else c
                 i += 1
                 continue
@@ -482,6 +482,12 @@ def rewrite_body(S, b0, b1, opts, log):
             raise ExtractError(f"lost anchor: subst `{old}` matches {text.count(old)} times")
         text = text.replace(old, new)
         log.append({"rule": "R-site", "note": f"`{old}` -> `{new}`"})
+    for old, new in opts.get("subst_all", []):
+        n = text.count(old)
+        if n < 1:
+            raise ExtractError(f"lost anchor: subst_all `{old}` matches 0 times")
+        text = text.replace(old, new)
+        log.append({"rule": "R-site", "note": f"`{old}` -> `{new}` ({n} sites)"})
     # ghost proof blocks (erased by Verus; never change executable behaviour)
     for pr in opts.get("proofs", []):
         a = pr["anchor"]
@@ -824,6 +830,11 @@ def parse_template(path):
                 if not m:
                     raise ExtractError(f"{path}:{i+1}: bad hsubst")
                 cur.setdefault("hsubst", []).append((m.group(1), m.group(2)))
+            elif cmd.startswith("subst_all "):
+                m = re.match(r"subst_all\s+<<(.*?)>>\s*==>\s*<<(.*)>>\s*$", cmd)
+                if not m:
+                    raise ExtractError(f"{path}:{i+1}: bad subst_all")
+                cur.setdefault("subst_all", []).append((m.group(1), m.group(2)))
             elif cmd.startswith("subst "):
                 m = re.match(r"subst\s+<<(.*?)>>\s*==>\s*<<(.*)>>\s*$", cmd)
                 if not m:
